@@ -108,3 +108,67 @@ pub(crate) fn kani_file(fd: i32) -> std::mem::ManuallyDrop<File> {
 
 #[cfg(test)]
 include!("/verif/.build/playback/io_mod.inc");
+
+// ---- IoPool::shutdown waits for writes in flight: native probe --------------------------------------
+// C20 ("once the handle is dropped ... all background writers of the old handle have finished"): V18
+// proves that the directory lock is released only after IoPool::shutdown returned and that shutdown
+// closes the channel and then joins the workers; that a worker does not EXIT before the writes it
+// has submitted to the kernel have completed is a fact about the worker loop (threads, io_uring) no
+// contract here reaches.  This probe runs the real pool once: one write that cannot complete for
+// 200 ms (its target is a pipe whose buffer is full) followed by 32 ordinary page writes; when
+// shutdown returns, all 33 completions must have been delivered.
+#[cfg(test)]
+#[test]
+fn native_probe_io_pool_shutdown_waits_for_in_flight_writes() {
+    use std::os::fd::AsRawFd as _;
+    let dir = tempfile::tempdir().unwrap();
+    let file = std::fs::OpenOptions::new().read(true).write(true).create(true).open(dir.path().join("data")).unwrap();
+    let mut fds = [0 as libc::c_int; 2];
+    assert_eq!(unsafe { libc::pipe(fds.as_mut_ptr()) }, 0);
+    let (pipe_rd, pipe_wr) = (fds[0], fds[1]);
+    let chunk = [0u8; PAGE_SIZE];
+    let mut filled = 0usize;
+    unsafe {
+        let fl = libc::fcntl(pipe_wr, libc::F_GETFL);
+        assert_eq!(libc::fcntl(pipe_wr, libc::F_SETFL, fl | libc::O_NONBLOCK), 0);
+        loop {
+            let n = libc::write(pipe_wr, chunk.as_ptr() as *const libc::c_void, PAGE_SIZE);
+            if n < 0 { break; }
+            filled += n as usize;
+        }
+        assert_eq!(libc::fcntl(pipe_wr, libc::F_SETFL, fl), 0);
+    }
+    assert!(filled >= PAGE_SIZE);
+    let page_pool = PagePool::new();
+    let mut pool = start_io_pool(1, page_pool.clone());
+    let handle = pool.make_handle();
+    let mut page = page_pool.alloc_fat_page();
+    page.fill(0xAB);
+    handle.send(IoCommand { kind: IoKind::Write(pipe_wr, 0, page), user_data: 0 }).unwrap();
+    for i in 0..32u64 {
+        let mut page = page_pool.alloc_fat_page();
+        page.fill(i as u8 + 1);
+        handle.send(IoCommand { kind: IoKind::Write(file.as_raw_fd(), i, page), user_data: i + 1 }).unwrap();
+    }
+    let drainer = std::thread::spawn(move || {
+        std::thread::sleep(std::time::Duration::from_millis(200));
+        let mut buf = [0u8; PAGE_SIZE];
+        let mut left = filled;
+        while left > 0 {
+            let n = unsafe { libc::read(pipe_rd, buf.as_mut_ptr() as *mut libc::c_void, std::cmp::min(left, PAGE_SIZE)) };
+            assert!(n > 0);
+            left -= n as usize;
+        }
+    });
+    let t0 = std::time::Instant::now();
+    pool.shutdown();
+    let elapsed = t0.elapsed();
+    let mut completed = 0;
+    while let Ok(c) = handle.try_recv() {
+        assert!(c.result.is_ok(), "a page write failed: {:?}", c.result);
+        completed += 1;
+    }
+    drainer.join().unwrap();
+    unsafe { libc::close(pipe_rd); libc::close(pipe_wr); }
+    assert!(completed == 33, "IoPool::shutdown returned after {:?} with {} of 33 submitted writes completed (one of them cannot complete before 200 ms)", elapsed, completed);
+}
